@@ -993,6 +993,73 @@ theorem sizeRows_vacuumRows_le (V : VDefects) (s : Snapshot) (h : Nat) : ∀ (ro
       have := Row.vacuum_size_le hv
       simp only [sizeRows]; omega
 
+/-! ### the general bound -/
+
+/-- versions below the head that were written by transaction `u` -/
+def Row.stackedBy (u : Nat) (r : Row) : Nat := (r.versions.tail.filter (fun w => w.creator == u)).length
+
+def stackedBy (u : Nat) : List Row → Nat
+  | [] => 0
+  | r :: rs => r.stackedBy u + stackedBy u rs
+
+theorem filter_tail_sublist {p : α → Bool} : ∀ (l : List α), (l.filter p).tail.Sublist l.tail
+  | [] => List.Sublist.refl _
+  | y :: ys => by
+    simp only [List.filter_cons]
+    split
+    · simp only [List.tail_cons]; exact List.filter_sublist
+    · simp only [List.tail_cons]
+      exact (List.tail_sublist _).trans List.filter_sublist
+
+/-- a vacuumed row stores its head plus at most the versions the horizon transaction had stacked below the old head -/
+theorem vacuum_row_size_le (σ : State) (α : Spec.State) (h : Rel σ α) (r r' : Row) (hr : r ∈ σ.rows)
+    (hv : r.vacuum V0 (vacSnap σ) σ.lastCommitted = some r') : r'.size ≤ 1 + r.stackedBy σ.lastCommitted := by
+  obtain ⟨s1, s2, _, s4⟩ := vacuum_row_shape σ α h r r' hr hv
+  obtain ⟨_, _, _, _, hvers, _, _, _⟩ := Row.vacuum_some hv
+  rw [liveVersions_none] at hvers
+  have hsub : r'.versions.tail.Sublist r.versions.tail := by
+    rw [hvers]
+    cases hl : r.versions.filter (fun v => !(vacSnap σ).aborted.contains v.creator) with
+    | nil => simp [trimChain]
+    | cons x tl =>
+      simp only [trimChain, List.tail_cons]
+      have h1 : (List.takeWhile (fun w => decide (σ.lastCommitted ≤ w.creator)) tl).Sublist tl := List.takeWhile_sublist _
+      have h2 := filter_tail_sublist (p := fun v => !(vacSnap σ).aborted.contains v.creator) r.versions
+      rw [hl] at h2
+      exact h1.trans h2
+  have hall : r'.versions.tail.filter (fun w => w.creator == σ.lastCommitted) = r'.versions.tail := by
+    apply List.filter_eq_self.2
+    intro w hw
+    simp [(s4 w hw).1]
+  have hlen : r'.versions.tail.length ≤ r.stackedBy σ.lastCommitted := by
+    unfold Row.stackedBy
+    rw [← hall]
+    exact (hsub.filter _).length_le
+  unfold Row.size
+  rw [s1]
+  cases hvs : r'.versions with
+  | nil => exact (s2 hvs).elim
+  | cons x tl =>
+    rw [hvs] at hlen
+    simp only [List.tail_cons] at hlen
+    simp only [List.length_cons, List.length_nil]
+    omega
+
+theorem sizeRows_vacuum_le (σ : State) (α : Spec.State) (h : Rel σ α) : ∀ (rows : List Row), (∀ r ∈ rows, r ∈ σ.rows) →
+    sizeRows (vacuumRows V0 (vacSnap σ) σ.lastCommitted rows) ≤
+      (vacuumRows V0 (vacSnap σ) σ.lastCommitted rows).length + stackedBy σ.lastCommitted rows
+  | [], _ => Nat.le_refl _
+  | r :: rs, hm => by
+    have ih := sizeRows_vacuum_le σ α h rs (fun x hx => hm x (List.mem_cons_of_mem _ hx))
+    unfold vacuumRows at ih ⊢
+    simp only [List.filterMap_cons, stackedBy]
+    cases hv : r.vacuum V0 (vacSnap σ) σ.lastCommitted with
+    | none => dsimp only; omega
+    | some r' =>
+      have := vacuum_row_size_le σ α h r r' (hm r (List.mem_cons_self ..)) hv
+      simp only [sizeRows, List.length_cons]
+      omega
+
 /-! ### forgetting -/
 
 theorem getElem?_forgetAux (h : Nat) : ∀ (txns : List Txn) (k i : Nat),
